@@ -11,6 +11,7 @@ Import ListNotations.
 Definition final2_rows := order2_invariant_rows foreign_reform foreign_plan_sim.
 Definition final2_sys := order2_invariant_sys foreign_reform foreign_plan_sim.
 Definition final2_errors := order2_invariant_errors foreign_reform foreign_plan_sim.
+Definition final2_iff := order2_invariant_iff foreign_reform foreign_plan_sim.
 
 (** every _GenerateEquations model of the multi-currency pipeline is "a few facts about the zone, then
     primitive operations sector by sector" *)
